@@ -19,13 +19,15 @@ def extract(g, X):
     filers = X.strip_comments(X.read("pdf/src/file.rs"))
 
     def bpc():
-        b = X.fn_body(enc, "predictor_geometry")
-        m = re.search(r"matches!\(\s*[\w.]*\bbits_per_component\s*,", b)
-        o = b.index("(", m.start())
-        pat = X.split_top(b[o + 1:X.close_of(b, o)], ",")[1]
-        if not re.match(r"!\s*$", b[max(0, m.start() - 2):m.start()]) and not re.search(r"!\s*$", b[:m.start()]):
-            raise ValueError("bits_per_component test is no longer negated")
-        return "[" + "; ".join("%d%%Z" % v for v in sorted(X.pattern_set(pat, b, enc))) + "]"
+        # the values of /BitsPerComponent that the geometry check lets through: the rejecting condition is evaluated for
+        # 0..255 (whether it is spelled matches!, match, a hoisted `let ok = …`, a list `.contains`, …)
+        b = X.inline_lets(X.fn_body(enc, "predictor_geometry"))
+        path = re.search(r"\b(\w+\.bits_per_component)\b", b).group(1)
+        conds = [(c, blk) for c, blk, _ in X.if_conditions(b) if path in c and re.match(r"\s*(bail!|return\s+Err|err!)", blk)]
+        if len(conds) != 1:
+            raise ValueError("rejecting condition on bits_per_component: %d found" % len(conds))
+        rejected = X.guard_values(conds[0][0], path, enc, scopes=[b])
+        return "[" + "; ".join("%d%%Z" % v for v in sorted(set(range(256)) - rejected)) + "]"
     g.attempt([("bpc_allowed", "list Z")], "enc.rs:predictor_geometry", bpc)
 
     def names():
@@ -77,8 +79,25 @@ def extract(g, X):
     def lzwcfg():
         # (early_change != 0) selects with_tiff_size_switch; both decoders Msb, symbol size
         b = X.fn_body(enc, "lzw_decode")
-        m = re.search(r"if\s+\w+\.early_change\s*!=\s*0\s*\{\s*Decoder::with_tiff_size_switch\(BitOrder::Msb,\s*(\d+)\)\s*\}\s*else\s*\{\s*Decoder::new\(BitOrder::Msb,\s*(\d+)\)", b)
-        return m.group(1), m.group(2)
+        # which decoder is built, as a function of /EarlyChange: the initialiser of the decoder is evaluated for 0 and 1
+        # (`if ec != 0 {A} else {B}`, `if ec == 0 {B} else {A}`, a match …)
+        path = re.search(r"\b(\w+\.early_change)\b", b).group(1)
+        init = None
+        for m in re.finditer(r"let\s+(?:mut\s+)?(\w+)\s*=\s*", b):
+            cand = X.let_expr(b[m.start():], m.group(1)) or ""
+            if path in cand and "Decoder::" in cand:
+                init = cand
+        t = X.tabulate(re.sub(re.escape(path), "__ec", init), "__ec", enc, scopes=[b], domain=(0, 1, 2))
+
+        def size(o, ctor):
+            mm = isinstance(o.value, X.rsx.Opaque) and re.fullmatch(r"Decoder::" + ctor + r"\(\s*BitOrder::Msb,\s*(\d+)\s*\)", o.value.text)
+            if not mm or o.effects:
+                raise ValueError("decoder for /EarlyChange: %r" % (o,))
+            return mm.group(1)
+        early, plain = size(t[1], "with_tiff_size_switch"), size(t[0], "new")
+        if size(t[2], "with_tiff_size_switch") != early:
+            raise ValueError("/EarlyChange 2")
+        return early, plain
     g.attempt([("lzw_sym_early", "N"), ("lzw_sym_plain", "N")], "enc.rs:lzw_decode", lzwcfg)
 
     def pairing():
@@ -88,10 +107,19 @@ def extract(g, X):
         f = re.search(r'let\s+(\w+)\s*=\s*Vec::<Name>::from_primitive\(\s*\w+\.remove\("(\w+)"\)', b)
         d = re.search(r'let\s+(\w+)\s*=\s*Vec::<Option<Dictionary>>::from_primitive\(\s*\w+\.remove\("(\w+)"\)', b)
         fl, dp = f.group(1), d.group(1)
-        i = re.search(r"for\s*\(\s*(\w+)\s*,\s*\w+\s*\)\s*in\s*" + fl + r"\.iter\(\)\.enumerate\(\)\s*\{", b)
-        loop = X.item_body(b[i.start():], r"\{", "filter loop")
-        gi = re.search(dp + r"\.get\(\s*(\w+)\s*\)", loop)
-        if gi.group(1) != i.group(1):
-            raise ValueError("parameter index is %s" % gi.group(1))
+        # the loop that pairs filter i with parameter i — in from_primitive or in the helper it calls with these two lists
+        found = None
+        for _, text in [("", b)] + X.instantiated_callees(b, stream):
+            i = re.search(r"for\s*\(\s*(\w+)\s*,\s*\w+\s*\)\s*in\s*" + fl + r"\.iter\(\)\.enumerate\(\)\s*\{", text)
+            if i:
+                loop = X.item_body(text[i.start():], r"\{", "filter loop")
+                gi = re.search(r"\b" + dp + r"\.get\(\s*(\w+)\s*\)", loop)
+                if gi and "from_kind_and_params" in loop:
+                    found = (i.group(1), gi.group(1))
+                    break
+        if not found:
+            raise ValueError("pairing loop not found")
+        if found[0] != found[1]:
+            raise ValueError("parameter index is %s" % found[1])
         return cbytes(f.group(2).encode()), cbytes(d.group(2).encode())
     g.attempt([("key_filter", "list N"), ("key_parms", "list N")], "stream.rs:StreamInfo::from_primitive", pairing)
